@@ -147,6 +147,30 @@ def cross_cases():
         add('func-override', cname, {'user_functions': {'sin': f}}, False)
         add('func-override-suppressed', cname, {'user_functions': {'sin': f}, 'suppress_warnings': True}, True)
         add('const-delete', cname, {'user_constants': {'pi': None}}, True)
+    # None-valued user constants: (a) default constants, (b) other names; accepted exactly when the configuration
+    # without the None entries is (with the named default constants deleted) -- computed by the documented rules
+    def add_auto(name, cname, cfg):
+        table = T[cname]
+        cfg = dict(table.base, **cfg)
+        add(name, cname, cfg, bool(table.rules(cfg, dict(doc_defaults(table), **cfg))))
+    for cname in ('FormulaGrader', 'NumericalGrader', 'MatrixGrader', 'SumGrader', 'IntegralGrader'):
+        for tag, uc in (('a-i', {'i': None}), ('a-ij', {'i': None, 'j': None}), ('a-pi-e-mixed', {'pi': None, 'e': None, 'g': 9.8}),
+                        ('b-fresh', {'c': None}), ('b-fresh-mixed', {'c': None, 'g': 9.8}), ('b-infty', {'infty': None}),
+                        ('ab-mixed', {'pi': None, 'c': None, 'g': 1.5}), ('b-two', {'c': None, 'd': None})):
+            add_auto('none-const-' + tag, cname, {'user_constants': uc})
+        if cname != 'NumericalGrader':
+            add_auto('none-const-b-also-variable', cname, {'variables': ['c'], 'user_constants': {'c': None, 'g': 9.8}})
+            add_auto('none-const-b-also-variable-alone', cname, {'variables': ['c', 'x'], 'user_constants': {'c': None}})
+            add_auto('none-const-b-infty-variable', cname, {'variables': ['infty'], 'user_constants': {'infty': None}})
+            add_auto('none-const-b-numbered-head', cname, {'numbered_vars': ['c'], 'user_constants': {'c': None, 'g': 2}})
+            add_auto('none-const-b-variable-real-collision', cname, {'variables': ['c', 'g'], 'user_constants': {'c': None, 'g': 2}})
+            add_auto('none-const-a-also-variable', cname, {'variables': ['i'], 'user_constants': {'i': None, 'j': None}})
+            add_auto('none-const-a-numbered-head', cname, {'numbered_vars': ['e'], 'user_constants': {'e': None}})
+    for cname in ('FormulaGrader', 'NumericalGrader'):
+        add_auto('none-const-infty-allow-inf', cname, {'allow_inf': True, 'user_constants': {'infty': None}})
+        add_auto('none-const-infty-no-allow-inf', cname, {'allow_inf': False, 'user_constants': {'infty': None, 'g': 1}})
+    add_auto('none-const-infty-variable-allow-inf', 'FormulaGrader', {'allow_inf': True, 'variables': ['infty'],
+                                                                      'user_constants': {'infty': None}})
     add('var-override', 'FormulaGrader', {'variables': ['pi']}, False)
     add('var-override-suppressed', 'FormulaGrader', {'variables': ['pi'], 'suppress_warnings': True}, True)
     add('numvar-override', 'FormulaGrader', {'numbered_vars': ['e']}, False)
@@ -286,6 +310,13 @@ def cross_cases_cached():
 # ------------------------------------------------------------------------------------------------
 # the property oracle on the implementation
 # ------------------------------------------------------------------------------------------------
+def default_constant_names(cls, cfg):
+    names = set(getattr(cls, 'default_variables', {}))
+    if cfg.get('allow_inf') is True:
+        names.add('infty')
+    return names
+
+
 def is_config_or_validation_error(e):
     import voluptuous
     from mitxgraders.exceptions import ConfigError
@@ -413,12 +444,29 @@ def check_case(case, res=None, witnesses=None):
             if not okform:
                 witness('answers-not-canonical', 'answers are not a tuple of {expect (tuple), grade_decimal, msg, ok} '
                         'dictionaries: %r' % (a,))
+        # None-valued user constants that do not name a default constant have no effect at all
+        uc = cfg.get('user_constants')
+        if isinstance(uc, dict) and hasattr(cls, 'default_variables'):
+            dnames = default_constant_names(cls, cfg)
+            idle = sorted(k for k, v in uc.items() if v is None and k not in dnames)
+            if any(v is None for v in (conf.get('user_constants') or {}).values()):
+                witness('none-constant-exposed', 'the exposed user_constants still contain None entries: %r' % (conf.get('user_constants'),))
+            if idle:
+                cfg2 = dict(cfg, user_constants={k: v for k, v in uc.items() if k not in idle})
+                st4, obj4 = core.guarded(lambda: cls(**cfg2))
+                if st4 != 'ret':
+                    witness('none-constant-matters', 'accepted, but the same configuration without the None entries %r (which name '
+                            'no default constant) raised %s' % (idle, type(obj4).__name__))
+                elif not same(obj4, obj):
+                    witness('none-constant-matters', 'differs from the grader built without the None entries %r (which name no default '
+                            'constant): %r vs %r' % (idle, obj.config.get('user_constants'), obj4.config.get('user_constants')))
         # rebuild from the exposed configuration (graders)
         if table.is_grader:
             st3, obj3 = core.guarded(cls, conf)
             if st3 != 'ret':
                 uc = cfg.get('user_constants') if isinstance(cfg.get('user_constants'), dict) else {}
-                reused = sorted(k for k, v in uc.items() if v is None and
+                # (the known finding: a DEFAULT constant deleted with None and declared again as a variable)
+                reused = sorted(k for k, v in uc.items() if v is None and k in default_constant_names(cls, cfg) and
                                 (k in (cfg.get('variables') or []) or k in (cfg.get('numbered_vars') or [])))
                 witness('rebuild-refused', 'constructing the grader again from its own configuration raised %s: %s'
                         % (type(obj3).__name__, str(obj3)[:160]),
